@@ -1,0 +1,35 @@
+// Copyright 2026 Dolthub, Inc.
+//
+// Licensed under the Apache License, Version 2.0 (the "License");
+// you may not use this file except in compliance with the License.
+// You may obtain a copy of the License at
+//
+//     http://www.apache.org/licenses/LICENSE-2.0
+//
+// Unless required by applicable law or agreed to in writing, software
+// distributed under the License is distributed on an "AS IS" BASIS,
+// WITHOUT WARRANTIES OR CONDITIONS OF ANY KIND, either express or implied.
+// See the License for the specific language governing permissions and
+// limitations under the License.
+
+//go:build verif
+
+package doltdb
+
+// VerifMoreSpecific reports whether getMoreSpecificPatterns(lessSpecific) matches |candidate|
+// (i.e. whether the code regards |candidate| as a pattern more specific than |lessSpecific|).
+func VerifMoreSpecific(lessSpecific, candidate string) (bool, error) {
+	re, err := getMoreSpecificPatterns(lessSpecific)
+	if err != nil {
+		return false, err
+	}
+	return re.MatchString(candidate), nil
+}
+
+// VerifNormalizePattern exposes normalizePattern to the verification harness.
+func VerifNormalizePattern(pattern string) string { return normalizePattern(pattern) }
+
+// VerifResolveConflictingPatterns exposes resolveConflictingPatterns to the verification harness.
+func VerifResolveConflictingPatterns(trueMatches, falseMatches []string, tableName TableName) (IgnoreResult, error) {
+	return resolveConflictingPatterns(trueMatches, falseMatches, tableName)
+}
